@@ -130,7 +130,8 @@ func c15Exec(c *fw.Ctx, hlen int, seq []int) (key string, extend, nontrivial boo
 				hub.Dispatch(event.MessageMetadata{Mailbox: f[1], ID: id, Subject: "s" + id})
 				mo.stored = append(mo.stored, f[1]+"/"+id)
 				for _, l := range ls {
-					if !l.left && match(l, f[1]) {
+					// history length 0 is documented to disable the monitor: nothing is relayed
+					if !l.left && match(l, f[1]) && hlen > 0 {
 						l.want = append(l.want, "stored:"+f[1]+"/"+id)
 					}
 				}
@@ -149,7 +150,7 @@ func c15Exec(c *fw.Ctx, hlen int, seq []int) (key string, extend, nontrivial boo
 				hub.Delete(mb, id)
 				mo.deleted[mb+"/"+id] = true
 				for _, l := range ls {
-					if !l.left && match(l, mb) && l.kind != "v1" { // the v1 socket API has no delete events
+					if !l.left && match(l, mb) && l.kind != "v1" && hlen > 0 { // the v1 socket API has no delete events
 						l.want = append(l.want, "deleted:"+mb+"/"+id)
 					}
 				}
@@ -260,7 +261,7 @@ func c15Exec(c *fw.Ctx, hlen int, seq []int) (key string, extend, nontrivial boo
 }
 
 func c15Run(c *fw.Ctx) {
-	for _, hlen := range fw.Pick(c, []int{2, 1}, []int{2, 1, 3, 5}) {
+	for _, hlen := range fw.Pick(c, []int{2, 1, 0}, []int{2, 1, 0, 3, 5}) {
 		hlen := hlen
 		e := &fw.SeqExplorer{
 			C: c, NOps: len(c15Ops),
